@@ -186,7 +186,10 @@ func vnHandshakeCase(r *vrng) vnHsRow {
 	// which acts get tampered: 35% none at all
 	var tw [4]int
 	if r.intn(100) >= 35 {
-		tw[1+r.intn(3)] = 1 + r.intn(2)
+		tw[1+r.intn(3)] = 1
+		if r.intn(10) < 3 {
+			tw[1+r.intn(3)] = 2
+		}
 		if r.intn(6) == 0 {
 			tw[1+r.intn(3)] = 1
 		}
@@ -668,7 +671,7 @@ func (t *vnTr) pickMsg() []byte {
 	}
 }
 
-func vnTransportCase(r *vrng, rotations int) map[string]any {
+func vnNewTransport(r *vrng) *vnTr {
 	s := &vnSession{rs: vnKey(r), ls: vnKey(r), ei: vnKey(r), er: vnKey(r)}
 	s.target = s.rs.PubKey()
 	init, resp := s.machines()
@@ -687,6 +690,11 @@ func vnTransportCase(r *vrng, rotations int) map[string]any {
 	t := &vnTr{r: r}
 	t.dirs[1] = &vnDir{snd: init, rcv: resp, sKey: init.sendCipher.secretKey, rKey: resp.recvCipher.secretKey}
 	t.dirs[0] = &vnDir{snd: resp, rcv: init, sKey: resp.sendCipher.secretKey, rKey: init.recvCipher.secretKey}
+	return t
+}
+
+func vnTransportCase(r *vrng, rotations int) map[string]any {
+	t := vnNewTransport(r)
 
 	dead := [2]bool{}
 	phases := 2 + r.intn(3)
@@ -778,6 +786,31 @@ func vnTransportCase(r *vrng, rotations int) map[string]any {
 		"interval": keyRotationInterval, "mac": macSize, "hdr": encHeaderSize}
 }
 
+// After a FAILED header read the Machine is not poisoned: the next read takes
+// the 18-byte body of a 2-byte message as a header (same key chain, same nil
+// associated data) and then returns the next header's plaintext as a message.
+// lnd's peer drops the connection on the first read error, so this is not
+// reachable there; the case pins the behaviour (model and code must agree).
+func vnConfusionCase(r *vrng) map[string]any {
+	t := vnNewTransport(r)
+	t.write(1, []byte{0, 2})
+	t.flushAll(1, 0)
+	t.write(1, r.bytes(1+r.intn(60)))
+	t.flushAll(1, 0)
+	off := r.intn(18)
+	t.dirs[1].pipe[off] ^= 0x01
+	var aff any
+	if a := t.dirs[1].affects(); a >= 0 {
+		aff = a
+	}
+	t.ops = append(t.ops, vnOp{"t", true, []any{"flip", off}, aff})
+	t.read(1)
+	t.read(1)
+	t.read(1)
+	return map[string]any{"kind": "tr", "ops": t.ops, "rotations": 0, "confusion": true,
+		"interval": keyRotationInterval, "mac": macSize, "hdr": encHeaderSize}
+}
+
 // ---------------------------------------------------------------- Conn level
 
 // faulty in-memory net.Conn: writes are taken in seeded fragments, now and
@@ -841,7 +874,7 @@ func vnConnCase(r *vrng) map[string]any {
 	nw := 3 + r.intn(8)
 	for i := 0; i < nw; i++ {
 		d := r.intn(2)
-		n := r.intn(300)
+		n := 1 + r.intn(300)
 		// (n = 0 is left out: Conn.Read turns an empty record into io.EOF
 		// because bytes.Buffer.Read on an empty buffer does; lnwire never
 		// sends empty messages)
@@ -906,10 +939,10 @@ func TestVerifNoise(t *testing.T) {
 	out := vOpenOut()
 	defer out.close()
 	master := vNewRng(vSeed())
-	nhs := vCases(150, 4000)
-	ntr := vCases(36, 600)
-	nrot := vCases(6, 40)
-	ncn := vCases(20, 400)
+	nhs := int(vEnvInt("VERIF_N_HS", int64(vCases(150, 4000))))
+	ntr := int(vEnvInt("VERIF_N_TR", int64(vCases(36, 600))))
+	nrot := int(vEnvInt("VERIF_N_ROT", int64(vCases(6, 40))))
+	ncn := int(vEnvInt("VERIF_N_CONN", int64(vCases(20, 400))))
 	for i := 0; i < nhs; i++ {
 		out.emit(vnHandshakeCase(master.fork(uint64(i))))
 	}
@@ -925,5 +958,8 @@ func TestVerifNoise(t *testing.T) {
 	}
 	for i := 0; i < ncn; i++ {
 		out.emit(vnConnCase(master.fork(uint64(300000 + i))))
+	}
+	if ntr > 0 {
+		out.emit(vnConfusionCase(master.fork(400000)))
 	}
 }
